@@ -30,6 +30,7 @@ EXPECTED = {
     ("simplicity-sys/depend/simplicity/bitcoin/ops.c", "c-static", "tagName"): "read-only byte strings (never written)",
     ("simplicity-sys/depend/simplicity/elements/elementsJets.c", "c-static", "taptweak"): "read-only byte string",
     ("simplicity-sys/depend/simplicity/bitcoin/bitcoinJets.c", "c-static", "taptweak"): "read-only byte string",
+    ("simplicity-sys/depend/simplicity/sha256.c", "c-global-fnptr", "rustsimplicity_0_7_sha256_compression"): "function pointer, initialised statically to the portable compression, never assigned by the library",
 }
 
 RUST_PATTERNS = [
@@ -110,9 +111,18 @@ def scan_c(root, found):
             text = re.sub(r"/\*.*?\*/", "", open(path, errors="replace").read(), flags=re.S)
             for l in text.split("\n"):
                 l = re.sub(r"//.*", "", l)
-                m = re.match(r"^\s*static\s+(?!const\b|inline\b|SECP256K1_INLINE\b)([A-Za-z_0-9 \*]+?)\b([A-Za-z_0-9]+)\s*(\[[^\]]*\])?\s*(=|;)", l)
+                # objects with static storage duration that are not const: `static T a, b[3] = …;`
+                m = re.match(r"^\s*static\s+(?!const\b|inline\b|SECP256K1_INLINE\b)([A-Za-z_0-9 \*]+?)\b([A-Za-z_0-9]+)\s*(\[[^\]]*\])?\s*(=|;|,)", l)
                 if m and "(" not in l.split("=")[0] and "const" not in l.split("=")[0]:
                     found.add((relp, "c-static", m.group(2)))
+                # file-scope function pointers: `T (*name)(…) = …;`
+                m = re.match(r"^(?!static\b|typedef\b|extern\b)[A-Za-z_][A-Za-z_0-9 \*]*\(\*\s*([A-Za-z_0-9]+)\s*\)\s*\([^)]*\)\s*(=|;)", l)
+                if m:
+                    found.add((relp, "c-global-fnptr", m.group(1)))
+                # other file-scope non-const definitions (column 0, with an initialiser)
+                m = re.match(r"^(?!static\b|typedef\b|extern\b|const\b|return\b|#)([A-Za-z_][A-Za-z_0-9 \*]*?)\b([A-Za-z_0-9]+)\s*(\[[^\]]*\])?\s*=\s*[^=]", l)
+                if m and "(" not in l.split("=")[0] and "const" not in l.split("=")[0] and m.group(1).strip():
+                    found.add((relp, "c-global", m.group(2)))
 
 
 def main():
